@@ -244,7 +244,8 @@ class C23(Check):
                 {"kind": "fmmu", "draws": [[1, 9], [7, 8], [7, 9]], "creator_gated": True},
                 {"kind": "restart", "w": 7, "w2": 11, "again": 7},
                 {"kind": "fmmu_rel", "a": 20, "b": 17, "other": 9, "dir": "remove_first"},
-                {"kind": "fmmu_rel", "a": 1, "b": 7, "other": 300, "dir": "alloc_first"}]
+                {"kind": "fmmu_rel", "a": 1, "b": 7, "other": 300, "dir": "alloc_first"},
+                {"kind": "fmmu_rel", "a": 22, "b": 17, "other": 300, "dir": "alloc_first"}]
 
     # ---- start / stop
     def run_startstop(self, case):
@@ -385,7 +386,7 @@ class C23(Check):
         writing the byte, A removes - it has to wait; B finishes; C asks for a (free again)."""
         root = tempfile.mkdtemp(prefix="verif_c23_")
         os.makedirs(root + "/run/ebpf")
-        A, B, C = kids = [Child(child_setup_factory(root, i)) for i in range(3)]
+        A, B, C, D = kids = [Child(child_setup_factory(root, i)) for i in range(4)]
         a, b, other = case["a"], case["b"], case["other"]
 
         def val(r):
@@ -404,8 +405,11 @@ class C23(Check):
                 while rb[0] == "gate":
                     rb = B.release()
                 rc = C.call("fmmu_new", [b, other])
-                return {"windows": [ra, val(rb), val(rc)], "running": [1, 2], "waited": waited, "inside": inside, "removed": val(r),
-                        "ops": ["A0", "R0", "A1", "A2"] if waited else ["A0", "A1", "R0", "A2"], "draws": [[a], [b, other + 1], [b, other]]}
+                # a late comer draws every number that is still held: the removal must have released A's number and nothing else
+                rd = D.call("fmmu_new", [b, other, other + 1, other + 2])
+                return {"windows": [ra, val(rb), val(rc), val(rd)], "running": [1, 2, 3], "waited": waited, "inside": inside, "removed": val(r),
+                        "ops": ["A0", "R0", "A1", "A2", "A3"] if waited else ["A0", "A1", "R0", "A2", "A3"],
+                        "draws": [[a], [b, other + 1], [b, other], [b, other, other + 1, other + 2]]}
             B.gates(["os.pwrite"])
             rb = B.call("fmmu_new", [b, other + 1])
             inside = rb == ("gate", "os.pwrite")
@@ -417,8 +421,9 @@ class C23(Check):
             while r[0] == "gate":
                 r = A.release()
             rc = C.call("fmmu_new", [a, other])
-            return {"windows": [ra, val(rb), val(rc)], "running": [1, 2], "waited": waited, "inside": inside, "removed": val(r),
-                    "ops": ["A0", "A1", "R0", "A2"], "draws": [[a], [b, other + 1], [a, other]]}
+            rd = D.call("fmmu_new", [b, a, other, other + 2])
+            return {"windows": [ra, val(rb), val(rc), val(rd)], "running": [1, 2, 3], "waited": waited, "inside": inside, "removed": val(r),
+                    "ops": ["A0", "A1", "R0", "A2", "A3"], "draws": [[a], [b, other + 1], [a, other], [b, a, other, other + 2]]}
         finally:
             for k in kids:
                 k.close()
